@@ -10,7 +10,8 @@
 2. harness/cmd/d_ceremonyrun runs scripted ceremonies on REAL nodes (real ValidationCeremony objects attached to
    real chains, see the driver's header for what is bypassed): seeded populations with good / absent / partial /
    wrong / unconfirmed / reporting / late participants, identities that lack required flips, an invitation that is
-   never activated; every sampled behaviour is replayed literally by a node (>= 3 nodes per scenario + the
+   never activated; every second population is split into TWO SHARDS by the real balanceShards (driver built with small
+   shard size limits) and has per-shard participation patterns whose evidence disagrees at the same bit positions; every sampled behaviour is replayed literally by a node (>= 3 nodes per scenario + the
    proposers that built the chains), every call of ApplyNewEpoch and every insertion of the epoch block is logged.
 3. TLC validates the trace against spec/Trace_CeremonyRun.tla: SameResult (every evaluation = the reference result
    of its chain, every node accepts the block and reaches the reference roots, layout groups agree),
@@ -205,15 +206,18 @@ def offenders(rows, line, clause):
         return ""
     sts = [x[0] for x in e["st"]] if e["ev"] == "Eval" else e["post"]
     res = []
-    for f, s_ in zip(ch["facts"], sts):
+    ms = e.get("ms") or [None] * len(sts)
+    for f, s_, m in zip(ch["facts"], sts, ms):
         missed = (not f["cand"]) or (not f["flipsDone"]) or (not f["short"]) or (not f["long"]) or 2 * f["appr"] <= f["maps"]
         bad = (clause == "AbsentNotValidated" and missed and s_ in (3, 7, 8)) or \
+              (clause == "PresentNotMissed" and not missed and m != 0) or \
               (clause == "InviteKilled" and f["prev"] == 1 and s_ not in (5, 0 if e["ev"] == "Commit" else 5)) or \
               (clause == "DeadStaysDead" and f["prev"] in (0, 5) and s_ not in (0, 5))
         if bad:
-            res.append("identity k%d (%s before; blocks record: candidate=%s requiredFlipsDone=%s answersHash=%s shortAnswers=%s longAnswers=%s, confirmed by %d of %d "
-                       "evidence maps) is %s afterwards" % (f["k"], STATUS.get(f["prev"]), f["cand"], f["flipsDone"], f["hash"], f["short"], f["long"], f["appr"], f["maps"],
-                                                           STATUS.get(s_)))
+            res.append("identity k%d (%s before, shard %s position %s; blocks record: candidate=%s requiredFlipsDone=%s answersHash=%s shortAnswers=%s longAnswers=%s, "
+                       "confirmed by %d of the %d evidence maps of its shard) is %s afterwards%s"
+                       % (f["k"], STATUS.get(f["prev"]), f.get("shard"), f.get("idx"), f["cand"], f["flipsDone"], f["hash"], f["short"], f["long"], f["appr"], f["maps"],
+                          STATUS.get(s_), {1: ", treated as having missed the validation", 2: ", not evaluated as a candidate"}.get(m, "")))
     return "; ".join(res)
 
 
@@ -243,15 +247,62 @@ def selftest(ctx, rows):
     if k is None:
         raise vlib.CheckError("self-test: nobody validated in the first scenario (dead driver)")
     ch["facts"][k]["short"] = False
-    for name, bad, want, at in (("digest", bad1, "SameResult", tgt + 1), ("facts", bad2, "AbsentNotValidated", None)):
+    bad3 = json.loads(json.dumps(first))
+    ref3 = next(r for r in bad3 if r["ev"] == "Eval" and r["chain"] == "a")
+    ch3 = next(r for r in bad3 if r["ev"] == "Chain" and r["chain"] == "a")
+    k3 = next((i for i, f in enumerate(ch3["facts"]) if f["cand"] and f["flipsDone"] and f["short"] and f["long"] and 2 * f["appr"] > f["maps"] and ref3["ms"][i] == 0), None)
+    if k3 is None:
+        raise vlib.CheckError("self-test: no present and confirmed identity in the first scenario (dead driver)")
+    ref3["ms"][k3] = 1
+    for name, bad, want, at in (("digest", bad1, "SameResult", tgt + 1), ("facts", bad2, "AbsentNotValidated", None), ("missed", bad3, "PresentNotMissed", None)):
         bp = ctx.path("selftest", "bad_%s.ndjson" % name)
         vlib.write_ndjson(bp, bad)
         info = validate_parts(ctx, [bp], "self_" + name)[0]
         hit = [(ln, c) for ln, c in info["broken"] if c.startswith(want + ":")]
         if info["ok"] or not hit or (at is not None and hit[0][0] != at):
             raise vlib.CheckError("binding self-test failed: corrupted trace (%s) not rejected as %s: %s" % (name, want, info))
-    ctx.log("binding self-test: changed result digest rejected (SameResult), identity made absent in the blocks' facts rejected (AbsentNotValidated)")
+    ctx.log("binding self-test: changed result digest rejected (SameResult), identity made absent in the blocks' facts rejected (AbsentNotValidated), "
+            "confirmed identity recorded as missed rejected (PresentNotMissed)")
     return True
+
+
+MIN_SHARD, MAX_SHARD = 5, 12
+
+
+def build_driver_small_shards(ctx):
+    """vlib.build_driver with one more overlay entry: common/sharding.go with small shard size limits (a copy of the
+    CURRENT file in which only the two numbers are replaced).  The shard limits are compile-time constants (2400 / 5000
+    identities); with small ones the REAL balanceShards splits a population of a dozen identities into two shards at
+    the end of the first validation (SetShardsNum, per-identity SetShardId, shard sizes: all set by the repository's
+    code), populations below the limit stay in one shard."""
+    import re
+    import time
+    vlib.ensure_gosum()
+    ov = vlib.build_overlay(ctx, CLOCKS)
+    src = os.path.join(vlib.REPO, "common", "sharding.go")
+    try:
+        text = open(src).read()
+    except OSError as ex:
+        raise vlib.CheckError("cannot read %s: %s" % (src, ex))
+    text, n1 = re.subn(r"(?m)^const MinShardSize = \d+$", "const MinShardSize = %d" % MIN_SHARD, text)
+    text, n2 = re.subn(r"(?m)^const MaxShardSize = \d+$", "const MaxShardSize = %d" % MAX_SHARD, text)
+    if n1 != 1 or n2 != 1:
+        raise vlib.CheckError("common/sharding.go changed shape: cannot derive the small-shard copy for the build overlay")
+    dst = os.path.join(os.path.dirname(ov), "sharding_small.go")
+    with open(dst, "w") as f:
+        f.write(text)
+    doc = json.load(open(ov))
+    doc["Replace"][src] = dst
+    ov2 = os.path.join(os.path.dirname(ov), "overlay_small_shards.json")
+    with open(ov2, "w") as f:
+        json.dump(doc, f, indent=1)
+    out = ctx.path("bin", "d_ceremonyrun")
+    t = time.time()
+    p = vlib.run(["go", "build", "-tags", "verif", "-overlay", ov2, "-o", out, "./cmd/d_ceremonyrun"], cwd=vlib.HARNESS, timeout=1800, check=False)
+    if p.returncode != 0:
+        raise vlib.CheckError("harness build failed:\n" + (p.stdout or "")[-6000:])
+    ctx.log("built d_ceremonyrun (shard size limits %d / %d) in %.1fs" % (MIN_SHARD, MAX_SHARD, time.time() - t))
+    return out
 
 
 def ceremony_panic(out):
@@ -269,7 +320,7 @@ def ceremony_panic(out):
 
 def run(ctx, quick):
     rnd = random.Random(ctx.seed * 7919 + 17)
-    drv = vlib.build_driver(ctx, "d_ceremonyrun", clocks=CLOCKS)
+    drv = build_driver_small_shards(ctx)
 
     # 1. the bounded model: invariants + export of every complete behaviour
     cfg = "MC_CeremonyRun_quick.cfg" if quick else "MC_CeremonyRun_thorough.cfg"
@@ -367,20 +418,35 @@ def run(ctx, quick):
         raise vlib.CheckError("dead driver: %d node behaviours, %d commits, %d evaluations, %d restarts recorded" % (n_nodes, commits, evals, restarts))
     refs = [x for x in flat if x["ev"] == "Eval" and x["node"] == "builder-a" and x["kind"] == "craft"]
     chains = {(x["sid"], x["grp"]): x for x in flat if x["ev"] == "Chain" and x["chain"] == "a"}
-    n_missed = n_valid = n_invites = n_noflips = 0
+    n_missed = n_valid = n_invites = n_noflips = n_present = n_cross = n_two = 0
     for x in refs:
         facts = chains[(x["sid"], x["grp"])]["facts"]
+        if not x.get("msok"):
+            raise vlib.CheckError("dead driver: a reference evaluation came without the ceremony's per-identity record (missed flags)")
         if x["failed"]:
             continue
+        conf = {}
         for f_, s in zip(facts, x["st"]):
             missed = (not f_["cand"]) or (not f_["flipsDone"]) or (not f_["short"]) or (not f_["long"]) or 2 * f_["appr"] <= f_["maps"]
             n_missed += 1 if missed and f_["prev"] in (2, 3, 4, 6, 7, 8) else 0
+            n_present += 0 if missed else 1
             n_valid += 1 if s[0] in (3, 7, 8) else 0
             n_invites += 1 if f_["prev"] == 1 else 0
             n_noflips += 1 if not f_["flipsDone"] else 0
-    if not refs or n_missed == 0 or n_valid == 0 or n_invites == 0 or n_noflips == 0:
-        raise vlib.CheckError("vacuous populations: %d reference evaluations, %d absent identities, %d validated, %d invitations, %d without flips"
-                              % (len(refs), n_missed, n_valid, n_invites, n_noflips))
+            if f_["cand"]:
+                conf[(f_["shard"], f_["idx"])] = (2 * f_["appr"] > f_["maps"], f_["maps"])
+        shards = {sh for sh, _ in conf}
+        n_two += 1 if len(shards) > 1 else 0
+        # positions at which the shards' evidence disagrees and the other shard has enough maps to tip a joint vote
+        for (sh, i), (ok, m) in conf.items():
+            for sh2 in shards - {sh}:
+                if (sh2, i) in conf and conf[(sh2, i)][0] != ok and conf[(sh2, i)][1] > 0:
+                    n_cross += 1
+    want_two = npops > 1 and not getattr(ctx, "replay", None)
+    if not refs or n_missed == 0 or n_valid == 0 or n_invites == 0 or n_noflips == 0 or n_present == 0 or (want_two and (n_two == 0 or n_cross == 0)):
+        raise vlib.CheckError("vacuous populations: %d reference evaluations (%d with two shards, %d positions at which the shards' evidence disagrees), "
+                              "%d absent identities, %d present and confirmed, %d validated, %d invitations, %d without flips"
+                              % (len(refs), n_two, n_cross, n_missed, n_present, n_valid, n_invites, n_noflips))
     ctx.log("validated %d trace lines (%d node evaluations, %d insertions of the epoch block, %d restarts); drift vs model: %d; broken: %s"
             % (len(flat), evals, commits, restarts, drift, sorted({cv for _, _, cv in broken_total}) or "none"))
 
@@ -416,13 +482,15 @@ def run(ctx, quick):
         "scenarios": len(scenarios), "populations": npops,
         "trace_lines_validated": len(flat), "node_evaluations": evals, "epoch_block_insertions": commits, "restarts": restarts,
         "variant_classes_run": dict(ran),
-        "absent_identities_judged": n_missed, "invitations_judged": n_invites, "identities_without_required_flips": n_noflips,
+        "absent_identities_judged": n_missed, "present_confirmed_identities_judged": n_present, "invitations_judged": n_invites,
+        "identities_without_required_flips": n_noflips, "reference_evaluations_with_two_shards": n_two,
+        "positions_where_the_shards_evidence_disagrees": n_cross,
         "drift_vs_model": drift,
         "samples": [{"population_behaviours": beh}, scenarios[0]["nodes"][1], scenarios[-1]["nodes"][-1]],
         "exhaustive": False,
         "rule": "every behaviour of one node within the bounds (<= %s restarts, <= 2 evaluations of a proposal before the epoch block is "
                 "inserted, fork switch after slot A1 / Clean, rollback of the epoch block, layouts %s, live / late) explored by TLC and exported; "
-                "a seeded sample stratified by variant class x live/late (%s per class) replayed literally on real nodes in %d seeded populations"
+                "a seeded sample stratified by variant class x live/late (%s per class) replayed literally on real nodes in %d seeded populations (every second one split into two shards)"
                 % ("1" if quick else "2", "l0..l5", "7" if quick else "250", npops),
     }
 
@@ -430,11 +498,14 @@ def run(ctx, quick):
 ASSUMPTIONS = [
     "ceremony transactions are signed by the harness with the participants' keys and payloads from the repository's encoders; the RPC entry "
     "points, real flip pictures, flip key packages and their gossip are not exercised (a node's own evidence depends on them, its evaluation does not)",
-    "one shard, <= 12 identities, god identity proposes every block (nobody is online), consensus configuration = repository default with all upgrades",
+    "populations of 12 identities in one shard and of 21 identities in two shards (split by the real balanceShards; the driver is built with "
+    "shard size limits 5 / 12 instead of 2400 / 5000 through the build overlay, nothing else of common/sharding.go changes); the god identity proposes "
+    "every block (nobody is online), consensus configuration = repository default with all upgrades",
     "blocks are assembled through the verif shim VerifCraftBlock (same functions as ProposeBlock, scripted body and time); one variant "
     "evaluates the node's own real ProposeBlock",
     "a restart = new node objects (Blockchain, AppState, TxPool, KeysPool, Flipper, ValidationCeremony) over the same database between two blocks",
-    "missed = no short or no long answers recorded in blocks, or not confirmed by more than half of the recorded evidence maps, or no candidate",
+    "missed = no short or no long answers recorded in blocks, or not confirmed by more than half of the recorded evidence maps of its own shard "
+    "(senders that are lottery candidates of that shard; bits = positions in that shard), or no candidate / required flips missing",
 ]
 
 
